@@ -48,4 +48,10 @@ example : globMatch b!"h?llo*" b!"hello" = true ∧ globMatch b!"h?llo*" b!"hllo
 example : globRegex b!"a.c*" = b!"(?s)^a\\.c.*$" := by decide
 example : Matches b!"*b" b!"aab" := Matches.star b!"b" b!"aa" b!"b" (Matches.lit 98 [] [] (by decide) (by decide) .nil)
 
+/-- the matcher the compiled model runs (a simulation on the set of remaining key suffixes, polynomial where the
+recursive matcher backtracks exponentially) is the matcher the theorems are about -/
+theorem C17_fast_matcher (p k : Bytes) : globMatchFast p k = globMatch p k := globMatchFast_eq p k
+
+example : globMatchFast b!"*a*a*a*b" b!"aaaaaaaaaaaaaaaa" = false ∧ globMatchFast b!"*a*a*a*a" b!"aaaaaaaaaaaaaaaa" = true := by decide
+
 end GoRedis
